@@ -81,9 +81,10 @@ Fixpoint digits_us (s : string) (prev_digit : bool) : option string :=
 Definition py_int (s : string) : option Z :=
   let s1 := rstrip (lstrip s) in
   let '(neg, body) := match s1 with
-                      | String "-"%char r => (true, r)
-                      | String "+"%char r => (false, r)
-                      | _ => (false, s1)
+                      | String a r => if Ascii.eqb a "-"%char then (true, r)
+                                      else if Ascii.eqb a "+"%char then (false, r)
+                                      else (false, s1)
+                      | EmptyString => (false, s1)
                       end in
   match digits_us body false with
   | None => None
@@ -264,6 +265,40 @@ Definition resolve (prov : list store) (ks : list key) (ty : rtype) : result (na
            end
   end.
 
+(* ---- specification side: what a key chain / id_short path denotes ----------------------------------- *)
+
+(* the keys below the root for the element at position p: type from the class, value = id_short, or the
+   decimal position when the parent is a SubmodelElementList *)
+Fixpoint key_chain (t : tree) (p : path) : option (list key) :=
+  match p with
+  | [] => Some []
+  | i :: r =>
+      match nth_error (t_ch t) i with
+      | None => None
+      | Some c =>
+          match (if is_list (t_cls t) then Some (index_str i) else t_key c), key_chain c r with
+          | Some v, Some ks => Some ((key_type_of (t_cls c), v) :: ks)
+          | _, _ => None
+          end
+      end
+  end.
+
+Definition id_short_path (t : tree) (p : path) : option (list string) :=
+  match key_chain t p with Some ks => Some (map snd ks) | None => None end.
+
+(* `follows t ids p n`: read as an id_short/index path, ids leads from t along positions p to n.
+   An index string denotes position i iff int() reads it as the non-negative number i. *)
+Inductive follows : tree -> list string -> path -> tree -> Prop :=
+  | F_nil : forall t, follows t [] [] t
+  | F_key : forall t id r i c p n,
+      is_namespace (t_cls t) = true -> is_list (t_cls t) = false ->
+      nth_error (t_ch t) i = Some c -> t_key c = Some id ->
+      follows c r p n -> follows t (id :: r) (i :: p) n
+  | F_idx : forall t id r i c p n,
+      is_namespace (t_cls t) = true -> is_list (t_cls t) = true ->
+      py_int id = Some (Z.of_nat i) -> nth_error (t_ch t) i = Some c ->
+      follows c r p n -> follows t (id :: r) (i :: p) n.
+
 (* ---- well-formed trees (what C01 guarantees for trees built through the public API) ---------------- *)
 
 Definition keys_of (l : list tree) : list (option string) := map t_key l.
@@ -282,3 +317,26 @@ Fixpoint wf_tree (t : tree) : Prop :=
   end.
 
 Definition ids_of (s : store) : list string := map t_id s.
+
+(* decidable version of wf_tree (used for the Examples and by the correspondence run to confirm that the
+   generated trees satisfy the hypotheses of the theorems) *)
+Definition okey_eqb (a b : option string) : bool :=
+  match a, b with
+  | Some x, Some y => String.eqb x y
+  | None, None => true
+  | _, _ => false
+  end.
+Fixpoint nodupb (l : list (option string)) : bool :=
+  match l with [] => true | x :: r => negb (existsb (okey_eqb x) r) && nodupb r end.
+Definition node_okb (t : tree) : bool :=
+  (match t_ch t with [] => true | _ => is_namespace (t_cls t) end)
+  && (is_list (t_cls t) || (nodupb (keys_of (t_ch t)) && negb (existsb (okey_eqb None) (keys_of (t_ch t)))))
+  && forallb (fun c => negb (is_identifiable (t_cls c))) (t_ch t).
+Fixpoint wf_treeb (t : tree) : bool :=
+  match t with
+  | Node c i k s ch =>
+      node_okb (Node c i k s ch) &&
+      (fix all (l : list tree) : bool := match l with [] => true | x :: r => wf_treeb x && all r end) ch
+  end.
+Fixpoint nodup_strb (l : list string) : bool :=
+  match l with [] => true | x :: r => negb (existsb (String.eqb x) r) && nodup_strb r end.
